@@ -83,6 +83,10 @@ fn join_lines(components: &[String]) -> String {
 }
 
 fn deserialize_package_list(value: &str) -> Result<Vec<String>, String> {
+    // An empty list is written as the empty string (see `join_lines`).
+    if value.is_empty() {
+        return Ok(vec![]);
+    }
     Ok(value.split('\n').map(|s| s.to_string()).collect())
 }
 
